@@ -126,6 +126,27 @@ def sweep(ctx, n):
                         bad(f"interface:{cls}:part-and-whole", f"get{X}([{', '.join(type(e_).__name__ for e_ in entries)}], obs): entry {j_} differs from the same entry asked alone "
                             "(a collection listed together with one of its own members)", {"class": cls, "field": X, "entry": j_, "order": [type(e_).__name__ for e_ in entries]})
                         break
+            # user-defined sources, each with its OWN field function, side by side: every form gives each its own field
+            if i % 4 == 3:
+                A1, A2 = nps.uniform(-1, 1, (3, 3)), nps.uniform(-1, 1, (3, 3))
+                c1 = magpy.misc.CustomSource(field_func=lambda field, observers, A=A1: observers @ A.T)
+                c2 = magpy.misc.CustomSource(field_func=lambda field, observers, A=A2: -2.0 * (observers @ A.T) + 1.0)
+                XB = rng.choice("BH")
+                getc = getattr(magpy, "get" + XB)
+                want = np.array([getc(c1, obs), getc(c2, obs)])
+                forms["custom-sources-side-by-side"] = forms.get("custom-sources-side-by-side", 0) + 1
+                cf = {"getX([c1,c2],obs)": lambda: getc([c1, c2], obs), "sens.getX(c1,c2)": lambda: getattr(sens, "get" + XB)(c1, c2),
+                      "getX([c1,src,c2],obs)[[0,2]]": lambda: np.asarray(getc([c1, src, c2], obs))[[0, 2]],
+                      "sumup": lambda: getc([c1, c2], obs, sumup=True), "collection": lambda: getc(magpy.Collection(c1.copy(), c2.copy()), obs)}
+                for name, f in cf.items():
+                    try:
+                        val = np.asarray(f())
+                    except Exception as e:
+                        bad(f"interface:CustomSource:{name}", f"{name} raised {type(e).__name__}: {str(e)[:120]}", {"field": XB, "form": name})
+                        continue
+                    exp_ = want.sum(axis=0) if name in ("sumup", "collection") else want
+                    if val.shape != exp_.shape or not np.allclose(val, exp_, rtol=1e-9, atol=1e-12):
+                        bad(f"interface:CustomSource:{name}", f"{name}: two CustomSources with different field functions in one call do not each give their own field", {"field": XB, "form": name})
             # a NESTED collection as observers, with a sub-collection listed before a sensor of the upper level: the sensor axis
             # follows coll.sensors_all (pre-order) in every call form, and equals asking sensor by sensor
             if i % 3 == 2:
